@@ -6,8 +6,7 @@
 (*                                                                         *)
 (* Part 1: definitional semantics over the rationals (vectors = sequences  *)
 (*         of Q, see LinQ).  No floating point, no roots: roots only occur *)
-(*         through their defining postcondition (r >= 0 /\ r^2 = s), the   *)
-(*         cosine through a Taylor enclosure with an explicit remainder.   *)
+(*         through their defining postcondition (r >= 0 /\ r^2 = s).       *)
 (* Part 2: acceptance predicates "the observed floating result r is a      *)
 (*         faithful evaluation of the definition", evaluated division-free *)
 (*         in exact dyadic arithmetic, each with an explicit forward error *)
